@@ -156,6 +156,11 @@ func (lt LiteralType) completeBoolAtPos(ctx context.Context, pos hcl.Pos) []lang
 				value = "true"
 			}
 			prefixLen := pos.Byte - eType.Range().Start.Byte
+			if prefixLen < 0 || prefixLen > len(value) {
+				// The position is outside of the literal
+				// (e.g. right after the equals sign)
+				return []lang.Candidate{}
+			}
 			prefix := value[0:prefixLen]
 			return boolLiteralTypeCandidates(prefix, eType.Range())
 		}
